@@ -677,6 +677,12 @@ MIX_CENTRES = {
     "B": {"t0_var": "f", "h_fall": True, "mw1_kind": "wrap", "mw1_fall": True, "mw2_kind": "post", "obs": "plain1",
           "eh": "specific"},
 }
+# C: ownership pressure ACROSS the call graphs of one pipeline: a clone-if-necessary singleton that the post-processing middleware's
+# graph borrows while the handler's graph consumes it by value twice (directly and through a transient T1 that takes it by value).
+# Explored with radius k-1 (quick: the centre and its 1-neighbours).
+MIX_CENTRES["C"] = {"t0_flav": "Kc", "t0_lc": "singleton", "t1": "v", "t1_lc": "transient", "h_t0": "v", "h_t1": "v",
+                    "mw1_kind": "post", "mw1_t0": "r"}
+MIX_RADIUS_OFFSET = {"C": -1}
 _MIX_ERR_OF = {"pre": "ERRPRE", "post": "ERRPOST", "wrap": "ERRW", "handler": "ERRH", "ctor": "ERRC"}
 
 
@@ -793,7 +799,7 @@ def mix_configs(k):
     for cname, centre in MIX_CENTRES.items():
         base = {d: vals[0] for d, vals in MIX_DIMS}
         base.update(centre)
-        for r in range(0, k + 1):
+        for r in range(0, k + MIX_RADIUS_OFFSET.get(cname, 0) + 1):
             for dims in itertools.combinations(range(len(MIX_DIMS)), r):
                 choices = [[v for v in MIX_DIMS[i][1] if v != base[names[i]]] for i in dims]
                 for combo in itertools.product(*choices):
